@@ -4,8 +4,10 @@ import (
 	"context"
 	"errors"
 	"fmt"
+	"path/filepath"
 	"runtime"
 	"strings"
+	"sync"
 	"sync/atomic"
 	"testing"
 	"time"
@@ -24,6 +26,9 @@ type c46Task struct {
 	Fail    bool `json:"fail"`     // return an error instead of a value
 	Respect bool `json:"respect"`  // give up early with ctx.Err() when the context is cancelled
 	Both    bool `json:"both"`     // a failing task also returns a non-zero value
+	// > 0: after its delay the task waits for the cancellation of the shared context and
+	// then keeps working for this long before it returns (only in programmes that cancel)
+	AfterCancelUS int `json:"after_cancel_us,omitempty"`
 }
 
 type c46Prog struct {
@@ -36,7 +41,7 @@ func (p c46Prog) key() string {
 	var b strings.Builder
 	fmt.Fprintf(&b, "c=%d b=%v", p.CancelUS, p.Barrier)
 	for _, t := range p.Tasks {
-		fmt.Fprintf(&b, "|%d,%d,%v,%v,%v", t.DelayUS, t.Yields, t.Fail, t.Respect, t.Both)
+		fmt.Fprintf(&b, "|%d,%d,%v,%v,%v,%d", t.DelayUS, t.Yields, t.Fail, t.Respect, t.Both, t.AfterCancelUS)
 	}
 	return b.String()
 }
@@ -125,6 +130,10 @@ func runC46(p c46Prog) c46Result {
 				}
 			} else if tk.Respect && fnCtx.Err() != nil {
 				cancelled = true
+			}
+			if tk.AfterCancelUS > 0 && !cancelled {
+				<-fnCtx.Done()
+				time.Sleep(time.Duration(tk.AfterCancelUS) * time.Microsecond)
 			}
 			switch {
 			case cancelled:
@@ -271,12 +280,103 @@ func genC46(t *rapid.T) c46Prog {
 	return p
 }
 
+// genC46Slow draws a programme whose context is always cancelled and in which
+// some tasks keep running long after the cancel instant (orders of magnitude
+// above the scheduling noise: 5 ms .. 400 ms, thorough up to 1.5 s), so that an
+// All that gives up waiting some time after the cancellation is caught whatever
+// that time is within the covered range.
+func genC46Slow(t *rapid.T) c46Prog {
+	n := rapid.IntRange(1, 8).Draw(t, "n")
+	p := c46Prog{Tasks: make([]c46Task, n)}
+	long := rapid.OneOf(rapid.IntRange(120000, 400000), rapid.IntRange(120000, 400000), rapid.IntRange(5000, 120000))
+	if ev.Thorough() {
+		long = rapid.OneOf(rapid.IntRange(120000, 400000), rapid.IntRange(5000, 120000), rapid.IntRange(400000, 1500000))
+	}
+	slow := 0
+	for i := range p.Tasks {
+		tk := c46Task{
+			DelayUS: rapid.OneOf(rapid.Just(0), rapid.IntRange(0, 600)).Draw(t, "delay"),
+			Yields:  rapid.IntRange(0, 3).Draw(t, "yields"),
+			Fail:    rapid.IntRange(0, 2).Draw(t, "fail") == 0,
+			Respect: rapid.Bool().Draw(t, "respect"),
+		}
+		if tk.Fail {
+			tk.Both = rapid.IntRange(0, 3).Draw(t, "both") == 0
+		}
+		if rapid.IntRange(0, 2).Draw(t, "slow?") == 0 {
+			tk.Respect = false
+			tk.AfterCancelUS = long.Draw(t, "afterCancel")
+			slow++
+		}
+		p.Tasks[i] = tk
+	}
+	if slow == 0 {
+		i := rapid.IntRange(0, n-1).Draw(t, "slowIdx")
+		p.Tasks[i].Respect = false
+		p.Tasks[i].AfterCancelUS = long.Draw(t, "afterCancel")
+	}
+	p.CancelUS = rapid.OneOf(rapid.Just(0), rapid.IntRange(1, 2000)).Draw(t, "cancelUS")
+	return p
+}
+
+func c46Labels(p c46Prog, r c46Result) (bool, []string) {
+	n := len(p.Tasks)
+	nt := n >= 2 && (r.mixed || r.cancelHit > 0)
+	labels := []string{fmt.Sprintf("tasks:%s", bucket(n))}
+	if r.mixed {
+		labels = append(labels, "values-and-errors")
+	}
+	switch {
+	case p.CancelUS < 0:
+		labels = append(labels, "cancel:never")
+	case p.CancelUS == 0:
+		labels = append(labels, "cancel:before-call")
+	case r.cancelHit < 0:
+		labels = append(labels, "cancel:after-return")
+	case r.cancelHit == 0:
+		labels = append(labels, "cancel:all-tasks-already-finished")
+	default:
+		labels = append(labels, "cancel:while-tasks-running")
+	}
+	if p.Barrier {
+		labels = append(labels, "barrier")
+	}
+	longest := 0
+	for _, tk := range p.Tasks {
+		longest = max(longest, tk.AfterCancelUS)
+	}
+	switch {
+	case longest >= 400000:
+		labels = append(labels, "works-after-cancel:400ms+")
+	case longest >= 120000:
+		labels = append(labels, "works-after-cancel:120-400ms")
+	case longest > 0:
+		labels = append(labels, "works-after-cancel:5-120ms")
+	}
+	return nt, labels
+}
+
 func TestC46(t *testing.T) {
 	rec := ev.New(t, "C46")
-	rec.Rule("rapid-generated programmes: 0..16 tasks, each with a delay 0..3000 us (Gosched bursts before it), value or error (optionally value+error), honouring or ignoring cancellation; the shared context is never cancelled, cancelled before the call, or cancelled after 1..3000 us; in 1/5 of the cases every task first waits until all tasks have started. Oracle: every task records what it returned and sets an atomic completion flag as its last action; when All returns every flag must be set, results/errors have one slot per task and slot i holds exactly what task i returned (value identity, error identity, context.Canceled for tasks that gave up). Non-trivial: >= 2 tasks and (values and errors both occurred, or the cancellation fired while at least one task was unfinished). Distinct = distinct programmes.")
+	rec.Rule("rapid-generated programmes: 0..16 tasks, each with a delay 0..3000 us (Gosched bursts before it), value or error (optionally value+error), honouring or ignoring cancellation; the shared context is never cancelled, cancelled before the call, or cancelled after 1..3000 us; in 1/5 of the cases every task first waits until all tasks have started. A second phase runs batches of 8 programmes in parallel whose context is always cancelled and in which 1..8 tasks ignore the cancellation and keep working for a generated 5..400 ms (thorough: up to 1.5 s) after the cancel instant. Oracle: every task records what it returned and sets an atomic completion flag as its last action; when All returns every flag must be set, results/errors have one slot per task and slot i holds exactly what task i returned (value identity, error identity, context.Canceled for tasks that gave up). Non-trivial: >= 2 tasks and (values and errors both occurred, or the cancellation fired while at least one task was unfinished). Distinct = distinct programmes.")
 	rec.Assume("result slot of a task that returned an error is not inspected (statement: value OR error)",
 		"a task is 'finished' when it has set its completion flag immediately before its return statement",
 		"the concurrency sub-check (barrier cases) uses a 30 s watchdog with a must-reproduce rule; a single unreproduced hit is inconclusive")
+	// a rapid fail file replays only the phase that wrote it (the file name carries the subtest name)
+	replayLong := strings.Contains(filepath.Base(ev.ReplayPath()), "long-after-cancel")
+	if !replayLong {
+		c46PhaseOne(t, rec)
+	}
+	if t.Failed() || (ev.ReplayPath() != "" && !replayLong) {
+		return
+	}
+	// Second phase: programmes with tasks that keep working 5..400 ms (thorough: up to
+	// 1.5 s) after the cancel instant. They are slow by nature, so each rapid case is a
+	// batch of 8 programmes executed in parallel.
+	t.Run("long-after-cancel", func(t *testing.T) { c46PhaseTwo(t, rec) })
+}
+
+func c46PhaseOne(t *testing.T, rec *ev.Recorder) {
 	ev.RapidCheck(t, 2000, 100000, func(t *rapid.T) {
 		p := genC46(t)
 		r := runC46(p)
@@ -288,30 +388,39 @@ func TestC46(t *testing.T) {
 				r = r2
 			}
 		}
-		n := len(p.Tasks)
-		nt := n >= 2 && (r.mixed || r.cancelHit > 0)
-		labels := []string{fmt.Sprintf("tasks:%s", bucket(n))}
-		if r.mixed {
-			labels = append(labels, "values-and-errors")
-		}
-		switch {
-		case p.CancelUS < 0:
-			labels = append(labels, "cancel:never")
-		case p.CancelUS == 0:
-			labels = append(labels, "cancel:before-call")
-		case r.cancelHit < 0:
-			labels = append(labels, "cancel:after-return")
-		case r.cancelHit == 0:
-			labels = append(labels, "cancel:all-tasks-already-finished")
-		default:
-			labels = append(labels, "cancel:while-tasks-running")
-		}
-		if p.Barrier {
-			labels = append(labels, "barrier")
-		}
+		nt, labels := c46Labels(p, r)
 		rec.Case(nt, p.key(), func() any { return p }, labels...)
 		if r.violationSig != "" {
 			rec.Fail(t, r.violationSig, p, "%s", r.msg)
+		}
+	})
+}
+
+func c46PhaseTwo(t *testing.T, rec *ev.Recorder) {
+	ev.RapidCheck(t, 6, 240, func(t *rapid.T) {
+		const batch = 8
+		progs := make([]c46Prog, batch)
+		for i := range progs {
+			progs[i] = genC46Slow(t)
+		}
+		results := make([]c46Result, batch)
+		var wg sync.WaitGroup
+		for i := range progs {
+			wg.Add(1)
+			go func(i int) {
+				defer wg.Done()
+				results[i] = runC46(progs[i])
+			}(i)
+		}
+		wg.Wait()
+		for i, p := range progs {
+			nt, labels := c46Labels(p, results[i])
+			rec.Case(nt, p.key(), func() any { return p }, append(labels, "phase:long-after-cancel")...)
+		}
+		for i, p := range progs {
+			if r := results[i]; r.violationSig != "" {
+				rec.Fail(t, r.violationSig, p, "%s", r.msg)
+			}
 		}
 	})
 }
